@@ -12,8 +12,12 @@ import (
 	"math/rand"
 	"os"
 	"sort"
+	"strconv"
 	"strings"
+	"time"
 )
+
+func nowNanos() int64 { return time.Now().UnixNano() }
 
 type jobCtx struct {
 	tier   string
@@ -25,6 +29,14 @@ type jobCtx struct {
 }
 
 func (j *jobCtx) quick() bool { return j.tier != "thorough" }
+
+// cap on the number of states one tour expands (a changed implementation may have many more states)
+func (j *jobCtx) maxStates() int {
+	if j.quick() {
+		return 4000
+	}
+	return 40000
+}
 func (j *jobCtx) want(kind string) bool {
 	if j.kind == "" {
 		return true
@@ -67,6 +79,16 @@ func main() {
 		startCapture(*out + ".cap")
 	}
 	startWatchdog()
+	budget := 90 * time.Second
+	if *tier == "thorough" {
+		budget = 15 * time.Minute
+	}
+	if s := os.Getenv("VERIF_JOB_BUDGET_S"); s != "" {
+		if n, err := strconv.Atoi(s); err == nil {
+			budget = time.Duration(n) * time.Second
+		}
+	}
+	jobDeadline = time.Now().Add(budget).UnixNano()
 	j := &jobCtx{tier: *tier, seed: *seed, kind: *kind, r: rand.New(rand.NewSource(*seed))}
 	f(j)
 	closeTrace()
@@ -110,6 +132,12 @@ func init() {
 	jobs["seq"] = jobSeq
 	jobs["que"] = jobQue
 	jobs["map"] = jobMap
+	jobs["set"] = jobSet
+	jobs["alg"] = jobAlg
+	jobs["heap"] = jobHeap
+	kindsOf["set"] = []string{"hashset", "treeset", "linkedhashset"}
+	kindsOf["alg"] = []string{"hashset", "treeset", "linkedhashset"}
+	kindsOf["heap"] = []string{"binaryheap", "priorityqueue"}
 	kindsOf["map"] = []string{"hashmap", "treemap", "linkedhashmap", "redblacktree", "avltree", "btree", "hashbidimap", "treebidimap"}
 }
 
@@ -152,7 +180,7 @@ func jobMap(j *jobCtx) {
 		}
 		for _, c := range mapTourCfgs(k, j.quick()) {
 			u := &mapUniverse{kind: k, cmp: c.cmp, vcmp: c.vcmp, m: c.m, nk: c.nk, nv: c.nv, shape: true, ctr: &ctr}
-			s, e := tour(u, 1<<22)
+			s, e := tour(u, j.maxStates())
 			j.states += s
 			j.edges += e
 		}
@@ -195,7 +223,7 @@ func jobSeq(j *jobCtx) {
 		if !j.quick() {
 			u.maxLen = 4
 		}
-		s, e := tour(u, 1<<20)
+		s, e := tour(u, j.maxStates())
 		j.states += s
 		j.edges += e
 		// (2) capacity thresholds of the array list: one value, longer lists
@@ -203,7 +231,7 @@ func jobSeq(j *jobCtx) {
 		if !j.quick() {
 			u2.maxLen = 33
 		}
-		s, e = tour(u2, 1<<20)
+		s, e = tour(u2, j.maxStates())
 		j.states += s
 		j.edges += e
 		// (3) random long histories
@@ -234,7 +262,7 @@ func jobQue(j *jobCtx) {
 			} else if !j.quick() {
 				u.maxLen = 6
 			}
-			s, e := tour(u, 1<<20)
+			s, e := tour(u, j.maxStates())
 			j.states += s
 			j.edges += e
 		}
@@ -248,6 +276,68 @@ func jobQue(j *jobCtx) {
 		}
 		for _, c := range rcaps {
 			randomRun(&queRandom{kind: k, cap: c}, j.r, n, 150)
+		}
+	}
+}
+
+func jobSet(j *jobCtx) {
+	for _, k := range kindsOf["set"] {
+		if !j.want(k) {
+			continue
+		}
+		type sc struct {
+			cmp string
+			n   int
+		}
+		cfgs := []sc{{"", 4}}
+		if k == "treeset" {
+			cfgs = []sc{{"nat", 5}, {"rev", 4}, {"half", 5}}
+			if !j.quick() {
+				cfgs = []sc{{"nat", 7}, {"rev", 5}, {"half", 7}}
+			}
+		} else if !j.quick() {
+			cfgs = []sc{{"", 5}}
+		}
+		for _, c := range cfgs {
+			u := &setUniverse{kind: k, cmp: c.cmp, n: c.n, argLen: 3}
+			s, e := tour(u, j.maxStates())
+			j.states += s
+			j.edges += e
+		}
+		n := 20
+		if !j.quick() {
+			n = 200
+		}
+		for _, cmp := range []string{"nat", "rev", "half"} {
+			randomRun(&setRandom{kind: k, cmp: cmp, n: 12}, j.r, n, 150)
+			if k != "treeset" {
+				break
+			}
+		}
+	}
+}
+
+func jobHeap(j *jobCtx) {
+	for _, k := range kindsOf["heap"] {
+		if !j.want(k) {
+			continue
+		}
+		for _, cmp := range []string{"prio", "maxprio", "prioid"} {
+			u := &heapUniverse{kind: k, cmp: cmp, elems: []int{11, 12, 21, 22, 31}, maxLen: 3}
+			if cmp == "prio" || !j.quick() {
+				u.maxLen = 4
+			}
+			if !j.quick() && cmp == "prio" {
+				u.maxLen = 5
+			}
+			s, e := tour(u, j.maxStates())
+			j.states += s
+			j.edges += e
+			n := 20
+			if !j.quick() {
+				n = 200
+			}
+			randomRun(&heapRandom{kind: k, cmp: cmp, np: 4}, j.r, n, 150)
 		}
 	}
 }
